@@ -15,7 +15,9 @@ from spatialmath import base  # noqa: E402
 
 CLSNAME = os.environ.get('C10_CLASS', 'SO2')
 CLS = getattr(sm, CLSNAME)
-OTHER = sm.SE3 if CLSNAME != 'SE3' else sm.SO3      # an object of a different class
+OTHER = sm.SE3 if CLSNAME not in ('SE3', 'SO3') else sm.Twist3      # an object of an unrelated class
+SUBCLASS = {'SO2': sm.SE2, 'SO3': sm.SE3, 'Quaternion': sm.UnitQuaternion}.get(CLSNAME)     # a strict subclass, if any
+PARENT = {'SE2': sm.SO2, 'SE3': sm.SO3, 'UnitQuaternion': sm.Quaternion}.get(CLSNAME)       # the parent class, if any
 NEL = 14
 
 
@@ -236,17 +238,27 @@ def step_matches_list(n: int, op: int, i: int, m: int) -> bool:
 
 def wrong_operand_rejected(n: int, op: int, i: int, kind: int) -> bool:
     """
-    A different class (kind 0) or a multi-valued object where a single value is required (kind 1) is rejected
-    with an exception and the object is unchanged.  ops: 0 append, 1 insert, 2 setitem, 3 extend (class only)
+    A different class (kind 0 unrelated, kind 2 a strict subclass, kind 3 the parent class) or a multi-valued object where
+    a single value is required (kind 1) is rejected with an exception and the object is unchanged.
+    ops: 0 append, 1 insert, 2 setitem, 3 extend (class only)
     pre: 1 <= n <= 4
     pre: 0 <= op <= 3
     pre: 0 <= i < n
-    pre: 0 <= kind <= 1
+    pre: 0 <= kind <= 3
     post: _
     """
     ref = list(range(n))
     x = _mk(ref)
-    bad = OTHER() if kind == 0 else _mk([8, 9])
+    if kind == 2:
+        if SUBCLASS is None:
+            return True
+        bad = SUBCLASS()
+    elif kind == 3:
+        if PARENT is None:
+            return True
+        bad = PARENT()
+    else:
+        bad = OTHER() if kind == 0 else _mk([8, 9])
     if op == 3 and kind == 1:
         return True
     try:
